@@ -9,6 +9,38 @@ from floorlin import FloorLinear
 HALF_PI = math.pi / 2
 
 
+def edge_clamp(ctx, crate):
+    """N: the clamp applied to the longitude offset on the edges of the polar facets is two-sided
+    and keeps the sign: read at nine points, the value left in `*lon` is clamp(x, -1, 1).  (A
+    one-sided or sign-losing clamp sends a one-ulp overshoot on the west edge of a facet to its
+    east edge: unproj(proj(p)) comes back 90 degrees away.)"""
+    from sym import Engine, show
+    from rules.common import feval, param
+    clause = "edge-clamp"
+    fn = "deal_with_numerical_approx_in_edges"
+    b = ctx.anchor(crate, fn, clause)
+    if b is None: return
+    e = Engine(crate); r = e.run(fn); ctx.functions |= e.visited_fns
+    names = b.param_names()
+    place = ('deref', ('p', names[0]))
+    out = r.state.heap.get(place) if r.returns else None
+    if out is None:
+        # by-value form: fn(x) -> x'
+        out = r.ret if r.returns else None
+        place = ('p', names[0])
+    if out is None:
+        ctx.undecided(clause, fn + ":shape", "no value left in *%s" % names[0], at=b.span); return
+    bad = []
+    for x in (-3.0, -1.5, -1.0000000000000002, -1.0, -0.25, 0.0, 0.75, 1.0, 1.0000000000000002, 2.0):
+        v = feval(out, {place: x}, e)
+        want = max(-1.0, min(1.0, x))
+        if v is None:
+            ctx.undecided(clause, fn + ":eval", "cannot read %s at %r" % (show(out)[:80], x), at=b.span); return
+        if v != want: bad.append((x, v, want))
+    ctx.report(clause, fn + ":two-sided", not bad, "the value left in *%s is clamp(x, -1, 1) at 10 points on both sides" % names[0] if not bad else
+               "clamp(%r) = %r, expected %r: an overshoot on one edge of a polar facet is moved to the opposite edge" % bad[0], at=b.span, kind="N")
+
+
 def run(ctx):
     cfgs = ["rel"] if ctx.tier == "quick" else ["rel", "dbg"]
     for cfg in cfgs:
@@ -39,6 +71,7 @@ def run(ctx):
             ctx.undecided("longitude-reduction", fn + ":shape", "unexpected return %s" % show(ret), at=b.span)
     from rules import c17_table
     c17_table.run(ctx, crate)
+    edge_clamp(ctx, crate)
     ctx.not_decided("the projection formulae, inverse property, 1e-14 accuracy (float numerics); base_cell_from_proj_coo on points exactly on a diagonal / facet seam (float ties)")
     from rules import cancellation
     cancellation.check(ctx, ctx.crate("rel"), ['proj', 'unproj', 'base_cell_from_proj_coo'], floor=8)
